@@ -1273,6 +1273,26 @@ Qed.
 Lemma Forall2_imp {A B} (R S : A -> B -> Prop) a b : (forall x y, R x y -> S x y) -> Forall2 R a b -> Forall2 S a b.
 Proof. intros H F. induction F; constructor; auto. Qed.
 
+(* one OutputQuery call over all rows of an accepted request returns every pushed span, in order: no row ends the output early *)
+Theorem one_query_reads_all_l : forall inp rows ps,
+  decode fixed inp = Some rows -> pushed_of inp = Some ps -> in_range inp ->
+  Forall2 (fun p r => reads_back p (Some r)) ps (output_query fixed (in_elems inp) (map fst rows)).
+Proof.
+  intros inp rows ps Hd Hp Hr. pose proof (read_back_l inp rows ps Hd Hp Hr) as F. clear Hd Hp Hr.
+  induction F as [|p sr ps' rows' H _ IH]; [constructor|].
+  cbn [map output_query]. destruct H as (r & Hread & Hrest).
+  assert (Ht : (t_ptype (fst sr) =? 1) || (t_ptype (fst sr) =? 2) = true).
+  { unfold read_row in Hread. destruct (t_ptype (fst sr) =? 1); [reflexivity|]. destruct (t_ptype (fst sr) =? 2); [reflexivity|discriminate]. }
+  rewrite Ht, Hread. constructor; [exists r; split; [reflexivity|exact Hrest]|exact IH].
+Qed.
+(* ... while a stored row that does not decode ends the output of its trace and a row of an unknown payload type is passed over *)
+Example ex_query_loop :
+  let rows := match decode fixed ex_otlp with Some rs => map fst rs | None => [] end in
+  List.length (output_query fixed [] rows) = 2%nat
+  /\ List.length (output_query fixed [] (update_nth 0 (fun r => with_payload r POther) rows)) = 0%nat
+  /\ List.length (output_query fixed [] (update_nth 0 (fun r => with_ptype r 3) rows)) = 1%nat.
+Proof. vm_compute. repeat split; reflexivity. Qed.
+
 Theorem model_meets_spec_l : forall inp, in_range inp -> spec_ok (model_case fixed inp) = true.
 Proof.
   intros inp Hr. unfold model_case. destruct (decode fixed inp) as [rows|] eqn:Ed; [|reflexivity].
